@@ -7,7 +7,7 @@ CONSTANTS
   DeltaPairs <- Deltas46
   MaxBlocks = 2
   DataLoss <- DLBoth
-  F3cRepaired = FALSE
+  F3cRepaired = TRUE
   F3abRepaired = FALSE
   WitClass = "none"
 INVARIANTS TypeOK GoesOnChainInTime GoesOnChainOnlyWithReason ForceClosesAsDecided ResolverOnce ClosedOutOnce DirectionSane CoopClean OnlyKnownClasses GhostEqual RepairedClean Announce
